@@ -1,7 +1,7 @@
 #![allow(non_camel_case_types, non_snake_case, dead_code)]
 #[tarpc::service]
 pub trait Rej26 {
-    async fn r#fn();
-    async fn serve(a0: i32);
+    async fn r#fn() -> String;
+    async fn new();
 }
 fn main() {}
